@@ -11,13 +11,21 @@ from . import presets
 def record(tier):
     """Returns the list of shard files (ndjson.gz), recording them first if the cache has none for this tree."""
     h = C.tree_hash()
-    d = C.cache_dir(h, "runs_%s_%d" % (tier, C.seed()))
+    jobs = presets.jobs(tier, C.seed())
+    # the cache entry also depends on what is recorded and how (job list + recorder source)
+    import hashlib
+    rec_src = open(os.path.join(os.path.dirname(__file__), "run_rec.py"), "rb").read()
+    jh = hashlib.sha256(json.dumps(jobs, sort_keys=True).encode() + rec_src).hexdigest()[:12]
+    d = C.cache_dir(h, "runs_%s_%d_%s" % (tier, C.seed(), jh))
     done = os.path.join(d, "DONE")
     with C.locked(os.path.join(d, "rec")):
         if not os.path.exists(done):
             C.prune_cache(h)
+            for old in os.listdir(os.path.dirname(d)):
+                if old.startswith("runs_%s_" % tier) and os.path.join(os.path.dirname(d), old) != d:
+                    import shutil
+                    shutil.rmtree(os.path.join(os.path.dirname(d), old), ignore_errors=True)
             scratch = C.scratch_repo()
-            jobs = presets.jobs(tier, C.seed())
             n = min(C.NCPU, len(jobs))
             procs = []
             for i in range(n):
